@@ -453,7 +453,9 @@ func (q *qc) rich() bool {
 	if q == nil {
 		return false
 	}
-	return q.skipHidden || q.numValMin > 0 || q.fileName != "" || q.a.rich() || q.b.rich() || q.rel.rich() || q.richX()
+	// everything the planner does not look into is given to the model as the set of blobs it matches (the struct's further
+	// conjunct); only a time-travelling Value on camliNodeType - which the planner does look at - stays SPEC-only
+	return (q.perm && !q.at.IsZero() && q.attr == "camliNodeType" && q.val != "") || q.a.rich() || q.b.rich() || q.rel.rich()
 }
 
 func (q *qc) String() string {
@@ -597,10 +599,28 @@ func (q *qc) coq(cw *c08World) string {
 	} else if q.op != "" {
 		logical = fmt.Sprintf("(Some (%s, %s, %s))", map[string]string{"and": "OAnd", "or": "OOr", "xor": "OXor"}[q.op], q.a.coq(cw), q.b.coq(cw))
 	}
+	// the conjuncts of this struct the planner never looks into, as the set of blobs satisfying all of them
+	var opaque map[int]bool
+	meet := func(pred func(b *c08blob) bool) {
+		next := map[int]bool{}
+		for _, b := range cw.blobs {
+			if (opaque == nil || opaque[b.rank]) && pred(b) {
+				next[b.rank] = true
+			}
+		}
+		opaque = next
+	}
+	permRich := q.perm && (q.skipHidden || q.numValMin > 0 || q.valAll || q.vmInt != nil || q.inSet != nil || q.modT != nil || q.anyT != nil || !q.at.IsZero())
 	perm := "None"
 	if q.perm {
 		a, v := 0, "PNone"
-		if q.attr != "" {
+		switch {
+		case q.attr == "":
+		case permRich && !q.hasValueConstraint() && q.numValMin == 0:
+			a = c08Attrs[q.attr] // an attribute without NumValue or a value constraint: not a valid query
+		case permRich && (!q.at.IsZero() || (q.val == "" && !q.hasVM())):
+			// nothing of it is planner-visible: any permanode, restricted by the opaque set below
+		default:
 			a = c08Attrs[q.attr]
 			if q.val != "" && q.hasVM() {
 				// Value and ValueMatches in one struct: a value must satisfy both
@@ -618,16 +638,33 @@ func (q *qc) coq(cw *c08World) string {
 			}
 		}
 		perm = fmt.Sprintf("(Some (%d, %s))", a, v)
+		if permRich && !(q.attr != "" && !q.hasValueConstraint() && q.numValMin == 0) {
+			pq := *q
+			pq.op, pq.a, pq.b, pq.rel = "", nil, nil, nil
+			only := &qc{perm: true, attr: pq.attr, val: pq.val, vmEquals: pq.vmEquals, vmContains: pq.vmContains, vmPrefix: pq.vmPrefix, vmFold: pq.vmFold,
+				skipHidden: pq.skipHidden, numValMin: pq.numValMin, valAll: pq.valAll, vmInt: pq.vmInt, inSet: pq.inSet, modT: pq.modT, anyT: pq.anyT, at: pq.at}
+			meet(func(b *c08blob) bool { return only.eval(cw, b) })
+		}
 	}
 	size := "None"
 	if q.size != nil {
 		size = fmt.Sprintf("(Some (%d, %d))", q.size[0], q.size[1])
 	}
-	prefix := "None"
 	if q.prefix != "" {
+		meet(func(b *c08blob) bool { return strings.HasPrefix(b.ref.String(), q.prefix) })
+	}
+	if q.fileName != "" || q.fileSize != nil || q.fParent != nil {
+		only := &qc{fileName: q.fileName, fileSize: q.fileSize, fParent: q.fParent}
+		meet(func(b *c08blob) bool { return only.eval(cw, b) })
+	}
+	if q.dir != nil {
+		meet(func(b *c08blob) bool { return q.dir.eval(cw, b) })
+	}
+	prefix := "None"
+	if opaque != nil {
 		var rs []string
 		for _, b := range cw.blobs {
-			if strings.HasPrefix(b.ref.String(), q.prefix) {
+			if opaque[b.rank] {
 				rs = append(rs, fmt.Sprint(b.rank))
 			}
 		}
@@ -863,7 +900,7 @@ var c08Sources = map[string]int{"corpus_permanode_lastmod": 1, "corpus_permanode
 func runC08(c *ctx) {
 	c.rep.Rule = "worlds of 4-12 permanodes (tags with several values, titles, camliNodeType possibly changed/deleted/claimed by another signer, dateCreated, hidden, deleted, claim-less), their claims, 2-5 files over 3 contents (shared wholeRefs), integer-valued and non-integer ratings, directories (none / one flat / sub inside dir, possibly inside top) with their static-sets, opaque blobs; " +
 		"edges between permanodes (camliMember, camliPath:a/b; re-pointed paths leaving a stale edge before or after a live one between the same two permanodes, members removed again, another signer's edges); random constraint trees of depth <= 3 over logical and/or/xor/not, permanode{relation parent|child, any|all, sub-constraint}, anything, camliType, anyCamliType, blobSize, blobRefPrefix (complete / proper / absent), permanode{attr,value}, file{wholeRef}, multi-field structs, the empty struct, " +
-		"biased towards permanode-only conjunctions so that the typed/sorted candidate sources are planned (leaves numValue, skipHidden, fileName, valueAll, valueMatchesInt, valueInSet, modTime, time, at, file size / parentDir and directory name / prefix / topFileCount / contains / recursiveContains / parentDir are checked against the reference evaluator only); " +
+		"biased towards permanode-only conjunctions so that the typed/sorted candidate sources are planned (leaves numValue, skipHidden, fileName, valueAll, valueMatchesInt, valueInSet, modTime, time, at, file size / parentDir and directory name / prefix / topFileCount / contains / recursiveContains / parentDir are given to the model as the set of blobs they match, computed by the reference evaluator); " +
 		"every sort in {unspecified, unsorted, -mod, -created, blobref} x limits {-1,1,2,3,n-1,n,n+1}; non-trivial = distinct query with at least one match"
 	w, err := newWorld()
 	must(err)
@@ -885,7 +922,7 @@ func runC08(c *ctx) {
 		for _, b := range cw.blobs {
 			byRef[b.ref] = b
 		}
-		for qi := 0; qi < c.n(80, 170); qi++ {
+		for qi := 0; qi < c.n(130, 220); qi++ {
 			q := genQC(c, cw, 1+c.rng.Intn(3))
 			nt := func(v string) *qc { return &qc{perm: true, attr: "camliNodeType", val: v} }
 			shapes := []*qc{
@@ -906,6 +943,7 @@ func runC08(c *ctx) {
 					}
 				}
 			}
+			nPermShapes := len(shapes) // these are repeated below inside a permanode-only conjunction
 			// the directory / file-tree constraints, every world
 			fn := func(p string) *qc { return &qc{fileName: p} }
 			shapes = append(shapes,
@@ -933,10 +971,10 @@ func runC08(c *ctx) {
 				if q.rel != nil {
 					c.count("relation constraints", "fixed shape")
 				}
-			} else if qi < 2*len(shapes) {
+			} else if qi < len(shapes)+nPermShapes {
 				q = &qc{op: "and", a: shapes[qi-len(shapes)], b: &qc{camli: "permanode"}}
 			}
-			if qi >= 2*len(shapes) && c.rng.Intn(2) == 0 {
+			if qi >= len(shapes)+nPermShapes && c.rng.Intn(2) == 0 {
 				// a permanode-only conjunction
 				top := &qc{op: "and", a: &qc{camli: "permanode"}, b: q}
 				if c.rng.Intn(3) == 0 {
